@@ -92,7 +92,8 @@ __CPROVER_ensures(_ret->src == ba_id(*ba) && _ret->nonempty == (ba->n != 0))
 /* the fields of a server-first message as the specification names them */
 #define SF_NONCE(sf)      gs2_attr((sf), 'r')
 #define SF_SALT(sf)       T_B64DEC(gs2_attr((sf), 's'))
-#define SF_ITERATIONS(sf) T_TOINT(gs2_attr((sf), 'i'))
+#define SF_ITERATIONS(sf) T_TOINT(gs2_attr((sf), 'i'))            /* 0 when the attribute is missing or not a number */
+#define SF_ITERATIONS_IS_NUMBER(sf) T_TOINT_OK(gs2_attr((sf), 'i'))
 #define SFINAL_VERIFIER(m) T_B64DEC(gs2_attr((m), 'v'))
 
 /* ghost: the (escaped) user name that was sent in the client-first message of this exchange */
